@@ -9,19 +9,20 @@ Import ListNotations.
 Open Scope nat_scope.
 
 (* the store, the allocation frontier and the shared free list (a stack: newNode takes the node freed last) *)
-Record hst := { hp : heap; nxt : addr; fl : list addr }.
+(* cap: the size the free list was made with (NewFreeList(size); DefaultFreeListSize = 32 for New) *)
+Record hst := { hp : heap; nxt : addr; fl : list addr; cap : nat }.
 Definition FLCAP := 32.                                 (* DefaultFreeListSize *)
 
 Definition hnode0 : hnode := {| own := 0; hits := []; kids := [] |}.
 Definition getn (s : hst) (a : addr) : hnode := match hp s a with Some n => n | None => hnode0 end.
-Definition hput (s : hst) (a : addr) (n : hnode) : hst := {| hp := hset (hp s) a n; nxt := nxt s; fl := fl s |}.
+Definition hput (s : hst) (a : addr) (n : hnode) : hst := {| hp := hset (hp s) a n; nxt := nxt s; fl := fl s; cap := cap s |}.
 Definition hdel (h : heap) (a : addr) : heap := fun x => if Nat.eqb x a then None else h x.
 
 (* FreeList.newNode: a recycled node if there is one, else a new one (the caller fills it in and tags it) *)
 Definition new_addr (s : hst) : addr * hst :=
   match fl s with
-  | [] => (nxt s, {| hp := hp s; nxt := S (nxt s); fl := [] |})
-  | b :: r => (b, {| hp := hp s; nxt := nxt s; fl := r |})
+  | [] => (nxt s, {| hp := hp s; nxt := S (nxt s); fl := []; cap := cap s |})
+  | b :: r => (b, {| hp := hp s; nxt := nxt s; fl := r; cap := cap s |})
   end.
 
 (* copyOnWriteContext.freeNode: only a node owned by the context is cleared and (if there is room) kept for reuse;
@@ -29,7 +30,7 @@ Definition new_addr (s : hst) : addr * hst :=
 Definition h_free (s : hst) (c : ctx) (a : addr) : hst :=
   match hp s a with
   | Some n => if Nat.eqb (own n) c
-              then {| hp := hdel (hp s) a; nxt := nxt s; fl := if Nat.ltb (length (fl s)) FLCAP then a :: fl s else fl s |}
+              then {| hp := hdel (hp s) a; nxt := nxt s; fl := if Nat.ltb (length (fl s)) (cap s) then a :: fl s else fl s; cap := cap s |}
               else s
   | None => s
   end.
@@ -187,11 +188,34 @@ Definition h_delete (deg : nat) (s : hst) (hh : hhandle) (t : irm) : option (hst
       end
   end.
 
-(* ---------------- a family of handles: a tree and its clones ---------------- *)
-Record world := { wst : hst; wctx : ctx (* next unused context *); whs : list hhandle }.
-Definition world0 : world := {| wst := {| hp := fun _ => None; nxt := 0; fl := [] |}; wctx := 1; whs := [{| hroot := None; hctx := 0; hlen := 0%Z |}] |}.
+(* n.reset(c) for Clear(true): the children first, then the node itself; a node is released only if the clearing
+   tree's context owns it; stops as soon as a released node no longer fits into the free list.  Returns the store and
+   whether the caller should go on. *)
+Fixpoint reset_list (R : hst -> addr -> hst * bool) (ks : list addr) (s : hst) : hst * bool :=
+  match ks with
+  | [] => (s, true)
+  | k :: r => let '(s1, go) := R s k in if go then reset_list R r s1 else (s1, false)
+  end.
+Definition owned_by (s : hst) (c : ctx) (a : addr) : bool := match hp s a with Some n => Nat.eqb (own n) c | None => false end.
+Fixpoint h_reset (fuel : nat) (c : ctx) (s : hst) (a : addr) : hst * bool :=
+  match fuel with O => (s, false) | S f =>
+  let '(s1, go) := reset_list (h_reset f c) (kids (getn s a)) s in
+  if go then (h_free s1 c a, negb (owned_by s1 c a && negb (Nat.ltb (length (fl s1)) (cap s1)))) else (s1, false)
+  end.
+(* Clear(addNodesToFreelist) *)
+Definition h_clear (s : hst) (hh : hhandle) (tofl : bool) : hst * hhandle :=
+  (match hroot hh with
+   | Some r => if tofl then fst (h_reset IFUEL (hctx hh) s r) else s
+   | None => s
+   end, {| hroot := None; hctx := hctx hh; hlen := 0%Z |}).
 
-Inductive hop := HClone (i : nat) | HIns (i : nat) (it : item) | HDel (i : nat) (t : irm).
+(* ---------------- a family of handles: trees and their clones on one free list ---------------- *)
+Record world := { wst : hst; wctx : ctx (* next unused context *); whs : list hhandle }.
+Definition world_init (k : nat) : world := {| wst := {| hp := fun _ => None; nxt := 0; fl := []; cap := k |}; wctx := 1; whs := [{| hroot := None; hctx := 0; hlen := 0%Z |}] |}.
+Definition world0 : world := world_init FLCAP.
+
+(* HNew: one more empty tree made with NewWithFreeList on the family's free list *)
+Inductive hop := HClone (i : nat) | HIns (i : nat) (it : item) | HDel (i : nat) (t : irm) | HClear (i : nat) (tofl : bool) | HNew.
 
 Definition set_h (l : list hhandle) (i : nat) (x : hhandle) : list hhandle := firstn i l ++ x :: skipn (S i) l.
 
@@ -219,6 +243,12 @@ Definition w_step_h (deg : nat) (w : world) (o : hop) : option (world * option i
                    | None => None end
       | None => None
       end
+  | HClear i b =>
+      match nth_error (whs w) i with
+      | Some hd => let '(s', hd') := h_clear (wst w) hd b in Some ({| wst := s'; wctx := wctx w; whs := set_h (whs w) i hd' |}, None)
+      | None => None
+      end
+  | HNew => Some ({| wst := wst w; wctx := S (wctx w); whs := whs w ++ [{| hroot := None; hctx := wctx w; hlen := 0%Z |}] |}, None)
   end.
 
 (* the functional tree a handle stands for *)
